@@ -879,8 +879,9 @@ class Interp:
     Calls into functions of the same crate are followed. Anything else raises NotEvaluable, which the rules report
     as a moved anchor. No candid code runs: this is constant evaluation of tables over sample inputs."""
 
-    def __init__(self, crate=None, max_depth=8):
+    def __init__(self, crate=None, max_depth=8, extra_crates=()):
         self.crate = crate
+        self.extra_crates = list(extra_crates)   # functions of these crates are followed too (e.g. candid's pretty::utils from candid_parser)
         self.scopes = None       # optional c11.Scopes of the function whose sub-expressions are evaluated
         self.depth = 0
         self.max_depth = max_depth
@@ -1142,6 +1143,18 @@ class Interp:
                 return ("Ok", args[0])
             if self.crate is not None and c in self.crate.hir and self.crate.hir[c].get("kind") in ("Fn", "AssocFn"):
                 return self.call_fn(self.crate.hir[c], args)
+            for xc in self.extra_crates:
+                if c in xc.hir and xc.hir[c].get("kind") in ("Fn", "AssocFn"):
+                    saved, self.crate = self.crate, xc
+                    try:
+                        return self.call_fn(xc.hir[c], args)
+                    finally:
+                        self.crate = saved
+            # pretty-printer documents are modelled by the text they render to on one line (text / as_string / append)
+            if re.search(r"^pretty::(RcDoc|Doc|BoxDoc)::<[^>]*>::(text|as_string)$", c) and len(args) == 1 and isinstance(_plain(args[0]), (str, int)):
+                return str(_plain(args[0]))
+            if re.search(r"^pretty::(RcDoc|Doc|BoxDoc)::<[^>]*>::nil$", c) and not args:
+                return ""
             cinfo = e.get("callee") if isinstance(e.get("callee"), dict) else {}
             if cinfo.get("ctor") and cinfo.get("kind") == "Variant" and not c.startswith("core::"):
                 return ("enum", c, [_plain(a) for a in args])         # a user enum's tuple-variant constructor
@@ -1285,6 +1298,11 @@ class Interp:
                 recv.s = ""
                 return None
             recv = recv.s
+        if isinstance(recv, tuple) and len(recv) == 2 and recv[0] == "lexer" and m == "slice" and not args:
+            return recv[1]             # logos::Lexer::slice(): the lexeme (model used when a token callback is evaluated)
+        if m == "append" and isinstance(recv, str) and re.search(r"^pretty::(RcDoc|Doc|BoxDoc)::", e.get("callee") or "") \
+                and len(args) == 1 and isinstance(args[0], str):
+            return recv + args[0]
         if isinstance(recv, tuple) and len(recv) == 3 and recv[0] == "enum" and m == "get_id" \
                 and recv[1].endswith(("internal::Label::Id", "internal::Label::Unnamed")):
             return recv[2][0]          # Label::get_id of a numeric label is the number itself
